@@ -13,7 +13,7 @@ type Query {
   e: Kind
   d: Date
   u: User
-  users(first: Int = 10, filter: Filter, kinds: [Kind!], ids: [ID!]!, f: Float): [User!]!
+  users(first: Int = 10, filter: Filter, kinds: [Kind!], ids: [ID!]!, f: Float, limit: Int! = 5, opt: [String], mat: [[Int]]): [User!]!
   maybe: [User]
   node(id: ID!): Node
   named: [Named!]
@@ -33,7 +33,7 @@ enum Kind { A B }
 input Filter { kind: Kind name: String = "x" ids: [ID!] nested: Filter min: Int! = 0 req: Boolean! }
 scalar Date
 directive @tag(name: String!) repeatable on QUERY | MUTATION | SUBSCRIPTION | FIELD | FRAGMENT_DEFINITION | FRAGMENT_SPREAD | INLINE_FRAGMENT | VARIABLE_DEFINITION
-directive @once(n: Int) on QUERY | MUTATION | SUBSCRIPTION | FIELD | FRAGMENT_DEFINITION | FRAGMENT_SPREAD | INLINE_FRAGMENT | VARIABLE_DEFINITION
+directive @once(n: Int! = 1) on QUERY | MUTATION | SUBSCRIPTION | FIELD | FRAGMENT_DEFINITION | FRAGMENT_SPREAD | INLINE_FRAGMENT | VARIABLE_DEFINITION
 directive @onlyq on QUERY
 "#;
 
